@@ -104,3 +104,17 @@ Definition agree04 (c : caseT) : bool :=
   let '(_, _, _, a) := c in answer_eqb a (model04 c) && hyps_ok c.
 
 Definition show04 (c : caseT) := (model04 c, hyps_ok c, model04_impl_F03 c).
+
+(* The harness requires the dumped forest to be the tree the text denotes; it computes that tree with a Python restatement of
+   the indentation rule (harness/props/c04.py spec_links).  This predicate ties the restatement to the rule C02 is proved
+   about (Model/Links.v spec_parents / spec_children): case = (line texts, parents, child lists) as computed in Python. *)
+Require Import CCP.Model.Links.
+Definition spec_case : Type := list str * list (option nat) * list (list nat).
+Definition model_spec (c : spec_case) : list (option nat) * list (list nat) :=
+  let '(texts, _, _) := c in
+  let li := map (linfo_of [33%N]) texts in
+  (spec_parents li, map (spec_children li) (seq 0 (length li))).
+Definition agree_spec (c : spec_case) : bool :=
+  let '(_, ps, ks) := c in
+  let m := model_spec c in
+  list_eqb (opt_eqb Nat.eqb) (fst m) ps && list_eqb (list_eqb Nat.eqb) (snd m) ks.
